@@ -245,8 +245,13 @@ class ConnModel(object):
         self.trace.append('event:' + name)
         self.on_event(world, ws, e)
         menu = self.app_menu
-        c = world.choose('app', len(menu), menu) if len(menu) > 1 else 0
-        action = menu[c]
+        if getattr(self, 'sticky_action', None) is not None:
+            action = self.sticky_action        # cfg['sticky']: an application that repeats its reaction at every later event
+        else:
+            c = world.choose('app', len(menu), menu) if len(menu) > 1 else 0
+            action = menu[c]
+            if self.cfg.get('sticky') and action != 'none':
+                self.sticky_action = action
         if action != 'none':
             self.trace.append('app:' + action)
             self.sites.add('app:%s@%s' % (action, name))
